@@ -12,10 +12,26 @@
  *   - initadd() replaced by a RECORDER (replace_calls): the ordered sequence of (byte range, bit-field, expression) requests is
  *     what 6.7.9p17-p23 prescribe; merging them (p19 override) is INIT.initadd's business.
  *
- * Every unit fixes its type graph at compile time and leaves the script's choices symbolic.
+ * Every unit fixes its type graph AND the token structure of each script at compile time (a harness runs many fixed structures
+ * one after the other) and leaves designator values / expression ids / string lengths symbolic: with a symbolic structure the
+ * cursor p.sub becomes a symbolic pointer into the uninitialised p.obj[32] and symex does not finish.
+ *
+ * MODEL: init.c and cc.h are compiled with `union` read as `struct` (struct object's {mem, idx}, struct type's u, struct expr's
+ * u).  CBMC 6.11 does not propagate pointers stored in unions (CONVENTIONS 6): `p->sub->u.mem->type` then is a symbolic pointer,
+ * every switch on t->kind explores all arms and dereferences the index of an array slot as a member pointer (symex never
+ * finishes).  Under the model a read of a member other than the last one written yields that member's own last value (for the
+ * uninitialised local p.obj[]: an arbitrary value) instead of the punned bits.
  */
 #include <stdlib.h>
+#include <assert.h>
+#include <stdbool.h>
+#include <string.h>
+#include <stdio.h>
+#include <stdint.h>
+#include <stddef.h>
+#define union struct
 #include "init.c"
+#undef union
 #include "verif.h"
 
 struct token tok;
@@ -140,8 +156,11 @@ mkstruct(struct type *t, enum typekind k, struct member *m, u64 size)
 	t->prop = 0;
 	t->incomplete = false;
 	t->base = 0;
-	t->u.structunion.tag = 0;
-	t->u.structunion.members = m;
+	{
+		/* one whole-member assignment: CBMC then propagates the pointer stored in the union (CONVENTIONS 6) */
+		__typeof__(t->u.structunion) su = {0, m};
+		t->u.structunion = su;
+	}
 }
 
 /* strel: element type of the string literal, slen: its length in elements INCLUDING the terminating null; structtype: type of
